@@ -191,3 +191,12 @@ func eventsOf(out *wire.Outcome, id int) []any {
 	}
 	return evs
 }
+
+func stringsIndex(s, sub string) int {
+	for i := 0; i+len(sub) <= len(s); i++ {
+		if s[i:i+len(sub)] == sub {
+			return i
+		}
+	}
+	return -1
+}
